@@ -27,7 +27,7 @@ def gen_cases(tier, seed):
     ninf_cap = 110 if tier == "quick" else 1800
     ninf = 0
     for k in range(n):
-        fam = str(rng.choice(["INF", "UNB", "DEG", "NLP", "QP"], p=[0.22, 0.2, 0.1, 0.28, 0.2]))
+        fam = str(rng.choice(["INF", "UNB", "DEG", "NLP", "QP", "NARROW"], p=[0.22, 0.2, 0.1, 0.24, 0.16, 0.08]))
         if fam == "INF":
             if ninf >= ninf_cap:
                 fam = "UNB"
@@ -48,6 +48,9 @@ def gen_cases(tier, seed):
             cfgd["iteration_limit"] = 200
             cfgd["obj_lower_limit"] = float(rng.choice([-1e10, -1e3]))
             cfgd["control"] = str(rng.choice(["DistanceRatio", "Exact", "ResiduumRatio"]))
+        elif fam == "NARROW":
+            # feasible, narrow range row at a large offset: every status other than Optimal has to be justified
+            cfgd["iteration_limit"] = 300
         else:
             cfgd["iteration_limit"] = int(rng.choice([0, 1, 2, 5, 17, 60]))
         if rng.random() < 0.4:
@@ -62,9 +65,9 @@ def run_case(case):
     clock = None
     if "deadline" in case:
         if case["deadline"] % 2:
-            # gradual clock: 0.4 s per deadline read, the limit is reached exactly at read `deadline`
-            cfgd["time_limit"] = 0.4 * case["deadline"]
-            clock = mon.VirtualClock(time_limit=0.4 * case["deadline"], display_bits=[0], ramp=0.4)
+            # gradual clock: 0.5 s per deadline read, the limit is reached exactly at read `deadline`
+            cfgd["time_limit"] = 0.5 * case["deadline"]
+            clock = mon.VirtualClock(time_limit=0.5 * case["deadline"], display_bits=[0], ramp=0.5)
         else:
             cfgd["time_limit"] = TIME_LIMIT
             clock = mon.VirtualClock(expire_at=case["deadline"], time_limit=TIME_LIMIT, display_bits=[0])
@@ -120,6 +123,15 @@ def run_case(case):
                     zi, yi = t["xn"], t["yn"]
         else:
             zi, yi = R.to_internal_point(P, w, work.x0_array(p), work.y0_array(p))
+        if np.shape(zi) != (D.n,):
+            # the code under test works on an internal problem of another shape than the reformulation it documents
+            # (slack per row with l < u): only the user-space oracle below can be applied
+            bad("infeasible-internal-shape", "LocallyInfeasible decided on an internal problem with %d variables; the "
+                "slack reformulation of the user's problem has %d" % (np.size(zi), D.n))
+            dist, _ = R.row_distance(P, w, x)
+            if not dist > tol - 2 * atol - 2 * ltol - 1e-13 * float(np.max(P.cabs(x) * sc)):
+                bad("infeasible-user-distance", "LocallyInfeasible but the scaled distance of c(x) to [l,u] is only %.3e" % dist)
+            return res
         cv = R.cons_violation(D, zi)
         lo, up, both = R.active_flags(D, zi, atol)
         g = D.J(zi).T.dot(D.c(zi))
@@ -145,7 +157,7 @@ def run_case(case):
         Js = (sc[:, None] * P.Jabs(x)) / sv[None, :]
         colsum = float(np.max(Js.sum(axis=0))) if Js.size else 0.0
         lim = ltol + (atol + 2 * ltol) * colsum + 1e-12 * float(np.max(gmag)) if gmag.size else ltol
-        res["maxes"]["infeasible_user_stationarity_over_bound"] = gu / lim
+        res["maxes"]["infeasible_user_stationarity_over_bound"] = gu / lim if lim > 0 else float(gu > 0)
         if not gu <= lim:
             bad("infeasible-user-stationarity", "LocallyInfeasible but the projected gradient of the violation measure in "
                 "the user's space is %.3e > %.3e" % (gu, lim))
@@ -170,13 +182,13 @@ def run_case(case):
 def finalize(agg, tier):
     return {
         "rule": "infeasible (quadratic row with no real solution, parallel rows with disjoint ranges, row unreachable in the "
-                "box; n<=4), unbounded (linear / concave objective along a free ray, with and without a row), degenerate, "
+                "box; n<=4), feasible problems with a range row that is narrow relative to its large offset (width 1e-3..0.4e-5 L at L = 1e4..1e7, box excluding the lower end of the range only), unbounded (linear / concave objective along a free ray, with and without a row), degenerate, "
                 "NLP and QP specs x random (controller, Newton type, penalty, step solver, scaling) x iteration limits "
                 "0/1/2/5/17/60 (500 for infeasible, 200 for unbounded) x obj_lower_limit -1e10/-1e3 x virtual-clock "
                 "deadline at read 0..29 in 40% of the runs; every non-Optimal result is judged (and the counter rules for "
                 "all results); distinct by spec seed",
         "floors": {"judged_LocallyInfeasible": 25, "judged_Unbounded": 25, "judged_IterationLimit": 100,
-                   "judged_TimeLimit": 30},
+                   "judged_TimeLimit": 30, "family_NARROW": 30},
         "assumptions": ["user-space oracle for LocallyInfeasible allows the exact price of eliminating the slack: distance "
                         "> tol - 2 active_tol - 2 local_infeas_tol, projected gradient <= local_infeas_tol + (active_tol + 2 "
                         "local_infeas_tol) * max column sum of |J_s|; the internal oracle has no such allowance",
